@@ -9,7 +9,11 @@ use crate::Ctx;
 use sdjwt::{Algorithm, Header, Validation};
 use serde_json::{json, Value};
 
-const AUD: &str = "https://verifier.example/cb";
+const AUDS: [&str; 6] = ["https://verifier.example/cb", "https://verifier.example/cb", "https://verifier.example/cb", " https://verifier.example/cb", "https://verifier.example/cb\n", "verifier\u{a0}"];
+thread_local! { static AUD_IX: std::cell::Cell<usize> = std::cell::Cell::new(0); }
+/// the audience of the case being run: whatever string the caller supplies is the audience, also one with white
+/// space around it (it is signed and compared as it is)
+fn aud_now() -> &'static str { AUDS[AUD_IX.with(|i| i.get())] }
 
 fn rsa_algs() -> [Algorithm; 6] {
     [Algorithm::RS256, Algorithm::RS384, Algorithm::RS512, Algorithm::PS256, Algorithm::PS384, Algorithm::PS512]
@@ -48,6 +52,7 @@ fn judge(ctx: &mut Ctx, ic: &IssuedCase, pres: &str, policy: Option<&Validation>
 
 pub fn run_case(ctx: &mut Ctx, case: &Value, c09: bool) {
     crate::real::set_current(case);
+    AUD_IX.with(|i| i.set((crate::report::hash_of(&case["tree"]) % AUDS.len() as u64) as usize));
     ctx.report.evaluations += 1;
     let ic = match issue_any(ctx, case) {
         Some(ic) => ic,
@@ -63,8 +68,8 @@ pub fn run_case(ctx: &mut Ctx, case: &Value, c09: bool) {
     // may decline to sign with another algorithm than its JWK names - the properties speak of the presentations
     // the holder does build; such a case goes on with the JWK's own algorithm.
     if ic.kb && keys::alg_name(&kb_alg) != "RS256" {
-        let probe = real::holder_present(&ic.token, &r, Some(&KbParams { aud: AUD, key: &kbkey, alg: kb_alg.clone() }), 1);
-        let again = real::holder_present(&ic.token, &r, Some(&KbParams { aud: AUD, key: &kbkey, alg: Algorithm::RS256 }), 1);
+        let probe = real::holder_present(&ic.token, &r, Some(&KbParams { aud: aud_now(), key: &kbkey, alg: kb_alg.clone() }), 1);
+        let again = real::holder_present(&ic.token, &r, Some(&KbParams { aud: aud_now(), key: &kbkey, alg: Algorithm::RS256 }), 1);
         if matches!(probe, Out::Err(..)) && again.is_ok() {
             ctx.report.bump("holder-declines-alg-other-than-the-jwk-names");
             kb_alg = Algorithm::RS256;
@@ -74,7 +79,7 @@ pub fn run_case(ctx: &mut Ctx, case: &Value, c09: bool) {
     ctx.report.nontrivial_case(&json!([case["tree"], r, kb_alg_name, ic.kb]));
     ctx.report.bump(&format!("kb-alg:{}", kb_alg_name));
     ctx.report.bump(&format!("sd_alg:{}", ic.sd_alg));
-    let policy_aud = kb_policy(AUD, kb_alg.clone());
+    let policy_aud = kb_policy(aud_now(), kb_alg.clone());
     let policy_noaud = Validation::default().without_expiry().with_algorithm(kb_alg.clone());
 
     if !ic.kb {
@@ -84,7 +89,7 @@ pub fn run_case(ctx: &mut Ctx, case: &Value, c09: bool) {
         judge(ctx, &ic, &pres, None, true, true, "unbound:no-kb:no-policy", case);
         judge(ctx, &ic, &pres, Some(&policy_aud), true, true, "unbound:no-kb:policy", case);
         let sd_hash = ctx.driver.hash(&ic.sd_alg, &pres);
-        let kb = craft_kb(Some("kb+jwt"), kb_alg.clone(), &json!({"aud": AUD, "nonce": "n", "iat": 1, "sd_hash": sd_hash}), 1).unwrap();
+        let kb = craft_kb(Some("kb+jwt"), kb_alg.clone(), &json!({"aud": aud_now(), "nonce": "n", "iat": 1, "sd_hash": sd_hash}), 1).unwrap();
         judge(ctx, &ic, &format!("{}{}", pres, kb), Some(&policy_aud), true, false, "unbound:with-kb", case);
         return;
     }
@@ -96,7 +101,7 @@ pub fn run_case(ctx: &mut Ctx, case: &Value, c09: bool) {
         ctx.report.diff("property", "Holder::build", "Holder::build:bound-without-key-binding", case, json!({"real": nokb.describe(|p| json!(p))}));
     }
     // --- holder-built presentations (C09) -----------------------------------------------------
-    let kbp = KbParams { aud: AUD, key: &kbkey, alg: kb_alg.clone() };
+    let kbp = KbParams { aud: aud_now(), key: &kbkey, alg: kb_alg.clone() };
     let t0 = std::time::SystemTime::now().duration_since(std::time::UNIX_EPOCH).unwrap().as_secs() as i64;
     let built = real::holder_present(&ic.token, &r, Some(&kbp), 3);
     let t1 = std::time::SystemTime::now().duration_since(std::time::UNIX_EPOCH).unwrap().as_secs() as i64;
@@ -120,7 +125,7 @@ pub fn run_case(ctx: &mut Ctx, case: &Value, c09: bool) {
         let expected_hash = ctx.driver.hash(&ic.sd_alg, &prefix);
         let nonce = kc["nonce"].as_str().unwrap_or("").to_string();
         let iat = kc["iat"].as_i64().unwrap_or(-1);
-        let ok = kh["typ"] == json!("kb+jwt") && kh["alg"] == json!(kb_alg_name) && kc["aud"] == json!(AUD)
+        let ok = kh["typ"] == json!("kb+jwt") && kh["alg"] == json!(kb_alg_name) && kc["aud"] == json!(aud_now())
             && kc["sd_hash"] == json!(expected_hash) && !kb.contains('~')
             // the property asks for a fresh unpredictable nonce, not for a particular length or alphabet
             && nonce.chars().count() >= 16 && iat >= t0 && iat <= t1;
@@ -129,7 +134,7 @@ pub fn run_case(ctx: &mut Ctx, case: &Value, c09: bool) {
         }
         // model of the holder with the harvested nonce / iat
         let m = ctx.driver.ask(&json!({"op":"flow","entry":"holder_build","token":ic.token,"jwt_ok":true,"redacted":r,
-            "kb_params":{"aud":AUD,"alg":kb_alg_name},"nonce":nonce,"now":iat}));
+            "kb_params":{"aud":aud_now(),"alg":kb_alg_name},"nonce":nonce,"now":iat}));
         let mk = &m["ok"]["kb"];
         // the model fixes an order of the disclosures, the property does not: when only the order differs, the
         // model's sd_hash is over another string, and the real one was compared with the driver's hash above
@@ -173,7 +178,7 @@ pub fn run_case(ctx: &mut Ctx, case: &Value, c09: bool) {
     judge(ctx, &ic, &pres, Some(&kb_policy("https://other.example", kb_alg.clone())), false, false, "aud-not-expected", case);
     // verifier expects another algorithm
     let other_alg = rsa_algs().iter().find(|a| keys::alg_name(a) != kb_alg_name).cloned().unwrap();
-    judge(ctx, &ic, &pres, Some(&kb_policy(AUD, other_alg.clone())), false, false, "alg-not-expected", case);
+    judge(ctx, &ic, &pres, Some(&kb_policy(aud_now(), other_alg.clone())), false, false, "alg-not-expected", case);
     // edits of the disclosure list after binding
     let all_own: Vec<String> = ic.marks.iter().map(|m| ic.disc_of(m.id)).collect();
     let mut edits: Vec<(Vec<String>, &str)> = Vec::new();
@@ -205,7 +210,7 @@ pub fn run_case(ctx: &mut Ctx, case: &Value, c09: bool) {
     // harness-crafted KB-JWTs with exactly one defect each
     let good_hash = ctx.driver.hash(&ic.sd_alg, &prefix);
     let other_sd_alg = if ic.sd_alg == "sha-256" { "sha-512" } else { "sha-256" };
-    let good = json!({"aud": AUD, "nonce": "0123456789abcdef0123456789abcdef", "iat": t0, "sd_hash": good_hash});
+    let good = json!({"aud": aud_now(), "nonce": "0123456789abcdef0123456789abcdef", "iat": t0, "sd_hash": good_hash});
     let with = |k: &str, v: Value| { let mut c = good.clone(); c[k] = v; c };
     let without = |k: &str| { let mut c = good.clone(); c.as_object_mut().unwrap().remove(k); c };
     let crafted: Vec<(Option<String>, &str, bool, bool)> = vec![
@@ -231,6 +236,11 @@ pub fn run_case(ctx: &mut Ctx, case: &Value, c09: bool) {
         (craft_kb(Some("kb+jwt"), kb_alg.clone(), &with("sd_hash", json!(good_hash.to_uppercase())), 1), "crafted:sd_hash-case-folded", true, good_hash.to_uppercase() == good_hash),
         (craft_kb(Some("kb+jwt"), kb_alg.clone(), &with("aud", json!("https://other.example")), 1), "crafted:aud-other", false, false),
         (craft_kb(Some("kb+jwt"), kb_alg.clone(), &without("aud"), 1), "crafted:aud-missing", false, false),
+        // `aud` as an array: it carries the expected audience iff that is one of its entries
+        (craft_kb(Some("kb+jwt"), kb_alg.clone(), &with("aud", json!([])), 1), "crafted:aud-empty-array", false, false),
+        (craft_kb(Some("kb+jwt"), kb_alg.clone(), &with("aud", json!(["https://other.example"])), 1), "crafted:aud-array-other", false, false),
+        (craft_kb(Some("kb+jwt"), kb_alg.clone(), &with("aud", json!([aud_now()])), 1), "crafted:aud-array-expected", true, true),
+        (craft_kb(Some("kb+jwt"), kb_alg.clone(), &with("aud", json!(["https://other.example", aud_now()])), 1), "crafted:aud-array-containing-expected", true, true),
     ];
     for (kbj, label, kb_ok, accept) in crafted {
         if let Some(k) = kbj {
